@@ -46,18 +46,24 @@ def run_net(binary, args, timeout=240, env=None):
 
 def extra_checks(tier, rng, binaries, log):
     res = []
-    runs = [("net_driver_pool", 4, 8, 40), ("net_driver_tsan", 4, 24, 6)] if tier == "quick" else [("net_driver_pool", 8, 32, 100), ("net_driver_pool", 16, 64, 50),
-                                                                     ("net_driver_tsan", 4, 16, 40), ("net_driver_tsan", 8, 32, 30)]
+    # (variant, io threads, connections, requests per connection[, rounds of short-lived connections])
+    # the last two TSan runs are churn runs: many short-lived connections on 8 io threads, so that the handlers that add
+    # and remove connections run concurrently on different strands
+    runs = [("net_driver_pool", 4, 8, 40), ("net_driver_tsan", 4, 24, 6), ("net_driver_tsan", 8, 32, 2, 16), ("net_driver_tsan", 8, 32, 2, 16)] \
+        if tier == "quick" else [("net_driver_pool", 8, 32, 100), ("net_driver_pool", 16, 64, 50),
+                                 ("net_driver_tsan", 4, 16, 40), ("net_driver_tsan", 8, 32, 30)] + [("net_driver_tsan", 8, 32, 2, 16)] * 6
     samples = []
     n = 0
-    for (h, threads, conns, reqs) in runs:
+    for run in runs:
+        (h, threads, conns, reqs) = run[:4]
+        rounds = run[4] if len(run) > 4 else (8 if h.endswith("tsan") else 5)
         try:
             binary = binaries.get(h) or vlib.build_harness(h, log)
         except vlib.BuildError as e:
             res.append((False, "net_driver (%s) does not build: %s" % (h, str(e)[-300:]), "build", {}))
             continue
         kv, err = run_net(binary, ["pool", "threads=%d" % threads, "conns=%d" % conns, "reqs=%d" % reqs] +
-                          (["rounds=8"] if h.endswith("tsan") else ["rounds=5"]))
+                          ["rounds=%d" % rounds])
         n += 1
         cmdline = "net_driver(%s) pool threads=%d conns=%d reqs=%d" % (h, threads, conns, reqs)
         if kv is None:
